@@ -160,7 +160,7 @@ func TestVerif_C04_Lifecycle(t *testing.T) {
 		}
 		for i := 0; i < nOps; i++ {
 			s.w.step = i + 1
-			op := rapid.SampledFrom([]string{"tick", "tick", "tick", "tick", "connect", "connect", "traffic", "data", "data", "silence", "silence", "silence", "restart", "close", "answerAll", "roleSwitch"}).Draw(rt, "op")
+			op := rapid.SampledFrom([]string{"tick", "tick", "tick", "tick", "connect", "connect", "traffic", "data", "data", "silence", "silence", "silence", "restart", "close", "answerAll", "roleSwitch", "trickleTwin"}).Draw(rt, "op")
 			if op == "close" && rapid.IntRange(0, 7).Draw(rt, "reallyClose") != 5 {
 				op = "tick"
 			}
@@ -281,6 +281,28 @@ func TestVerif_C04_Lifecycle(t *testing.T) {
 				lastRecv = time.Now()
 				lbl["data-refreshes-liveness"] = true
 				s.ops = append(s.ops, fmt.Sprintf("data×%d", n))
+			case "trickleTwin":
+				// the peer trickles a second candidate of another type on the transport address of the selected
+				// remote (e.g. a server-reflexive candidate equal to its host address): traffic from that address
+				// keeps refreshing the selected pair
+				sp := s.ag.selectedPair()
+				if sp == nil || closed {
+					break
+				}
+				ap := sp.Remote.addrPort()
+				var twin Candidate
+				var terr error
+				if sp.Remote.Type() == CandidateTypeServerReflexive {
+					twin, terr = NewCandidateHost(&CandidateHostConfig{Network: "udp", Address: ap.Addr().String(), Port: int(ap.Port()), Component: 1})
+				} else {
+					twin, terr = NewCandidateServerReflexive(&CandidateServerReflexiveConfig{Network: "udp", Address: ap.Addr().String(), Port: int(ap.Port()), Component: 1, RelAddr: "10.9.9.9", RelPort: 9})
+				}
+				if terr != nil {
+					rt.Fatalf("harness: %v", terr)
+				}
+				_ = s.ag.addRemoteSync(twin)
+				lbl["twin-remote-candidate"] = true
+				s.ops = append(s.ops, "trickleTwin")
 			case "answerAll":
 				for _, d := range s.agentRequests() {
 					s.removeInflight(d)
@@ -450,6 +472,7 @@ func TestVerif_C04_CheckingDeadline(t *testing.T) {
 		dt := time.Duration(rapid.IntRange(0, 60).Draw(rt, "dtMs")) * time.Millisecond
 		ft := time.Duration(rapid.SampledFrom([]int{0, 30, 45, 60}).Draw(rt, "ftMs")) * time.Millisecond
 		withRestart := rapid.Bool().Draw(rt, "restartAfterDeadlineFailure")
+		restartMid := rapid.IntRange(0, 3).Draw(rt, "restartWhileChecking") == 0
 		cfg := simAgentConfig{controlling: controlling, maxBinding: 7, disconnected: dt, failed: ft, keepalive: 0, explicitTimeout: true}
 		s, err := newSoloSim(cfg, []duoSockSpec{{Kind: simKindHost}}, []soloEpSpec{{Typ: CandidateTypeHost}})
 		if err != nil {
@@ -464,13 +487,43 @@ func TestVerif_C04_CheckingDeadline(t *testing.T) {
 		t0 := time.Now()
 		s.ag.tick() // the deadline counts from the first tick in Checking
 		t0b := time.Now()
-		desc := fmt.Sprintf("controlling=%v dt=%s ft=%s restart=%v", controlling, dt, ft, withRestart)
-		st.Record(vfHashStr(desc), ft != 0, fmt.Sprintf("ft0:%v", ft == 0), fmt.Sprintf("restart:%v", withRestart))
+		desc := fmt.Sprintf("controlling=%v dt=%s ft=%s restart=%v restartWhileChecking=%v", controlling, dt, ft, withRestart, restartMid)
+		st.Record(vfHashStr(desc), ft != 0, fmt.Sprintf("ft0:%v", ft == 0), fmt.Sprintf("restart:%v", withRestart), fmt.Sprintf("restartWhileChecking:%v", restartMid && ft != 0 && dt+ft >= 60*time.Millisecond))
 		if st.WantSample() {
 			st.Sample(func() string { return desc })
 		}
 		if got := s.ag.state(); got != ConnectionStateChecking {
 			st.Fail(rt, "C04/deadline/early-failure", "%s: state %s right after the first tick", desc, got)
+		}
+		if restartMid && ft != 0 && deadline >= 60*time.Millisecond {
+			// Restart while still Checking begins a new session: its deadline counts from the new session's first tick
+			time.Sleep(deadline * 6 / 10)
+			if err := s.ag.restart(); err != nil {
+				rt.Fatalf("harness: restart: %v", err)
+			}
+			if _, err := s.ag.addLocal(0, false, simKindHost, true); err != nil {
+				rt.Fatalf("harness: %v", err)
+			}
+			_ = s.ag.a.SetRemoteCredentials(s.peer.ufrag, s.peer.pwd)
+			_ = s.ag.addRemoteSync(s.epCandidate(0, soloEpSpec{Typ: CandidateTypeHost}))
+			r0 := time.Now()
+			s.ag.tick()
+			r0b := time.Now()
+			if d := deadline + 10*time.Millisecond - time.Since(t0b); d > 0 {
+				time.Sleep(d) // just past the deadline of the session that Restart ended
+			}
+			s.ag.tick()
+			if got := s.ag.state(); got != ConnectionStateChecking && time.Since(r0) < deadline-5*time.Millisecond {
+				st.Fail(rt, "C04/deadline/restart-while-checking-keeps-old-deadline", "%s: %s %s after the first tick of the session begun by Restart (deadline %s), %s after the first tick of the ended session",
+					desc, got, time.Since(r0), deadline, time.Since(t0b))
+			}
+			time.Sleep(deadline + 25*time.Millisecond - time.Since(r0b))
+			s.ag.tick()
+			if got := s.ag.state(); got != ConnectionStateFailed {
+				st.Fail(rt, "C04/deadline/not-failed-after-deadline", "%s: state %s %s after the first tick of the restarted session (deadline %s)", desc, got, time.Since(r0b), deadline)
+			}
+
+			return
 		}
 		if ft == 0 {
 			time.Sleep(dt + 40*time.Millisecond)
@@ -502,6 +555,20 @@ func TestVerif_C04_CheckingDeadline(t *testing.T) {
 		for _, sk := range s.ag.allSocks {
 			if !sk.isClosed() {
 				st.Fail(rt, "C04/deadline/failed-with-residue", "%s: socket %s still open in the Failed state", desc, sk.name())
+			}
+		}
+		// a failed agent stays empty until Restart: candidates that turn up late (a slow gatherer, trickled
+		// remote candidates) are not taken, and authentic traffic cannot bring it back to Connected
+		if rapid.Bool().Draw(rt, "lateCandidatesAfterFailed") {
+			_, lerr := s.ag.addLocal(1, false, simKindHost, true)
+			_ = s.ag.addRemoteSync(s.epCandidate(0, soloEpSpec{Typ: CandidateTypeHost}))
+			s.ag.tick()
+			if v := c06Take(s.ag.a); len(v.pairs) != 0 || len(v.locals) != 0 || len(v.remotes) != 0 || v.selected != nil {
+				st.Fail(rt, "C04/deadline/failed-agent-takes-candidates", "%s: after Failed (no Restart) a late local candidate (err=%v) and a trickled remote candidate left pairs=%d locals=%d remotes=%d selected=%v",
+					desc, lerr, len(v.pairs), len(v.locals), len(v.remotes), v.selected != nil)
+			}
+			if got := s.ag.state(); got != ConnectionStateFailed {
+				st.Fail(rt, "C04/deadline/left-failed-without-restart", "%s: state %s", desc, got)
 			}
 		}
 		if !withRestart {
